@@ -1,0 +1,18 @@
+//go:build verif
+
+// Verification hook for property C01 (add-only, compiled only with -tags verif).
+package the
+
+import (
+	"github.com/AliceO2Group/Control/common/event"
+	"github.com/AliceO2Group/Control/common/event/topic"
+)
+
+// VerifC01SetEventWriter installs w as the writer returned by EventWriterWithTopic(t), so that a
+// harness can observe the Ev_EnvironmentEvent stream (reported state, transition, step) without a
+// Kafka broker.
+func VerifC01SetEventWriter(t topic.Topic, w event.Writer) {
+	mu.Lock()
+	defer mu.Unlock()
+	writers[t] = w
+}
